@@ -1,6 +1,6 @@
 #![no_main]
 //! C19 fuzz leg: parsing is case-insensitive (ASCII folding) for arbitrary strings, and whatever
-//! parses displays to something that parses to the same OS signal.
+//! parses displays to something that parses to the same OS signal; integers parse alike however written.
 use std::str::FromStr;
 
 use libfuzzer_sys::fuzz_target;
@@ -22,6 +22,11 @@ fuzz_target!(|data: &[u8]| {
 	assert!(same(&a, &up) && same(&a, &lo), "C19: parse({s:?}) = {a:?}, upper {up:?}, lower {lo:?}");
 	let u = Signal::from_unix_str(s);
 	assert!(same(&u, &Signal::from_unix_str(&s.to_ascii_uppercase())), "C19: from_unix_str({s:?}) is case-sensitive");
+	// the number is an integer however it is written (015, +15)
+	if let Ok(n) = i32::from_str(s) {
+		let canon = Signal::from_str(&n.to_string());
+		assert!(same(&a, &canon), "C19: parse({s:?}) = {a:?} but {n} parses to {canon:?}");
+	}
 	if let Ok(sig) = a {
 		let shown = sig.to_string();
 		match Signal::from_str(&shown) {
